@@ -40,7 +40,7 @@ def bounds(tier, seed):
                           else ("16 weight/scale vectors, 4 relabellings", "n=5 over desired {0,2}^5, 4 weight vectors")),
             "cyclic": "multisets of <=%d directed edges over %d variables, gaps {0,1,2}, desired {0,1,3}^n"
                       % ((3, 3) if tier == "quick" else (4, 4)),
-            "families": "thorough: chains, walled chains, stars, layered DAGs, ladders, n=1..60"}
+            "families": "thorough: chains, walled chains, stars, layered DAGs, ladders, n=1..60; every DAG on 6 variables with <= 6 edges x 2 gap patterns x desired {0,2}^6"}
 
 
 # ------------------------------------------------------------------ instances
@@ -234,6 +234,8 @@ def plan(tier, seed):
                            "wv": ["unit", "heavy0", "light0", "mixed"], "sv": ["unit"], "mod": nsh, "rem": r})
         for r in range(96):
             shards.append({"kind": "cyc", "n": 4, "maxe": 4, "mod": 96, "rem": r})
+        for r in range(96):  # sparse DAGs on 6 variables: every graph with <= 6 edges, two gap patterns, desired {0,2}^6
+            shards.append({"kind": "sparse6", "mod": 96, "rem": r})
         for n in range(1, 61):
             shards.append({"kind": "fam", "n": n})
     # re-solve path: solve, setDesiredPositions, solve on one solver - every pair of desired vectors
@@ -277,6 +279,28 @@ def run_shard(shard):
                                 acc.violation(inst, bad[0], bad[1], order=(n, len(cons), ci, pi))
             if ci % 17 == 0:
                 acc.sample(inst)
+    elif shard["kind"] == "sparse6":
+        n = 6
+        pairs = [(i, j) for i in range(n) for j in range(i + 1, n)]
+        perm = [3, 0, 4, 1, 5, 2]  # so that "left" is not always the lower index
+        gi = 0
+        for k in range(0, 7):
+            for es in itertools.combinations(range(len(pairs)), k):
+                gi += 1
+                if gi % shard["mod"] != shard["rem"]:
+                    continue
+                acc.states += 1
+                for pat in (0, 1):
+                    cons = [(perm[pairs[e][0]], perm[pairs[e][1]], 2 if pat == 0 else (2 * pairs[e][0] + pairs[e][1]) % 4) for e in es]
+                    for d in itertools.product((0, 2), repeat=n):
+                        inst = {"d": list(d), "w": [1] * n, "s": [1] * n, "cons": cons}
+                        bad = judge(inst, acc)
+                        acc.evals += 1
+                        acc.trans += 1
+                        acc.counters["sparse6_instances"] += 1
+                        if bad:
+                            acc.violation(inst, bad[0], bad[1], order=(30, k, gi))
+        acc.sample(inst)
     elif shard["kind"] == "resolve":
         n = shard["n"]
         for ci, cons in enumerate(acyclic_configs(n, False)):
